@@ -33,6 +33,10 @@ def leaf_types():
         ("#?n", arr_type("#?n")),
         ("Union[int, ?n]", {"t": "union", "ts": [INT, q]}),
         ("Union[?n ?m, ?n]", {"t": "union", "ts": [arr_type("?n ?m"), q]}),
+        # an earlier alternative binds the per-leaf axis and then fails on a later axis: the binding must not survive
+        ("Union[?n 3, 3 ?n]", {"t": "union", "ts": [arr_type("?n 3"), arr_type("3 ?n")]}),
+        ("Union[?n ?n, ?n ?m]", {"t": "union", "ts": [arr_type("?n ?n"), arr_type("?n ?m")]}),
+        ("Union[?n 9 *?v, *?v ?n]", {"t": "union", "ts": [arr_type("?n 9 *?v"), arr_type("*?v ?n")]}),
         ("tuple[?n, int]", {"t": "tuple", "ts": [q, INT]}),
         ("PyTree[?n]", {"t": "pytree", "l": q, "s": None}),
         ("PyTree[Union[int, ?n]]", {"t": "pytree", "l": {"t": "union", "ts": [INT, q]}, "s": None}),
@@ -44,6 +48,12 @@ def mk_leaf(name, size, rng):
         return arr_val([size, size + 1])
     if name == "b ?n":
         return arr_val([7, size])
+    if name == "Union[?n 3, 3 ?n]":
+        return arr_val([3, size]) if rng.chance(2, 3) else arr_val([size, 3])
+    if name == "Union[?n ?n, ?n ?m]":
+        return arr_val([size, size + rng.below(2)])
+    if name == "Union[?n 9 *?v, *?v ?n]":
+        return arr_val([size + 1, 2, size])
     if name == "*?v":
         return arr_val([size] * (size % 3))
     if name == "tuple[?n, int]":
